@@ -1,9 +1,13 @@
 // Support code of the generated C10 / C11 correspondence programs (see checks/props/adapt_gen.py).
 //   C10: recording targets (free function templates and functor classes) of arity 0..6 over int/long/double and the
 //        move-sensitive class MStr; targets returning T& / const T& to pool objects (`cell<T>(id)`); the printed
-//        result says whether the adaptor's result is a reference and to which pool object it refers (by address)
-//   C11: `Obj` with address identity and copy/move accounting, recording/mutating targets
-// Every generated case prints exactly one line:  "<case-id> <canonical observation>"
+//        result says whether the adaptor's result is a reference and to which pool object it refers (by address);
+//        targets with declared parameters `T` / `const T&` / `T&&` (qleaf) over the arithmetic types and the string-like
+//        class Str (converting constructor, heap payload); two exception types (Thrown, Thrown2) and partial catchers
+//   C11: `Obj` with address identity and copy/move accounting, recording/mutating targets; `DObj` derived from `Obj` and
+//        recording member functions of `Obj` (targets of unbound sigc::mem_fun(&Obj::meth))
+// Every generated case prints exactly one line:  "<case-id> <canonical observation>"; when std::terminate() is called the
+// program prints one line "TERMINATE ..." instead and exits with code 24.
 #ifndef VERIF_ADAPT_SUPPORT_H
 #define VERIF_ADAPT_SUPPORT_H
 #include <sigc++/sigc++.h>
@@ -11,6 +15,8 @@
 #include <vector>
 #include <cmath>
 #include <cstdio>
+#include <cstdlib>
+#include <exception>
 #include <functional>
 #include <map>
 #include <memory>
@@ -27,10 +33,37 @@ inline std::string& buf()
   return b;
 }
 
+// the case that is running (set by finish / ofinish_begin) and the terminate handler: an exception that escapes into a
+// noexcept function or is never caught must not look like a silent crash
+inline int& cur_case()
+{
+  static int c = -1;
+  return c;
+}
+[[noreturn]] inline void on_terminate()
+{
+  std::printf("TERMINATE std::terminate() called in case %d: the exception did not reach the caller (calls so far: %s)\n",
+    cur_case(), buf().c_str());
+  std::fflush(stdout);
+  std::_Exit(24);
+}
+
 // ------------------------------------------------------------------------------------------- C10
-struct Thrown
+struct Thrown // exception type K1
 {
 };
+struct Thrown2 // exception type K2 (unrelated to Thrown)
+{
+};
+template<int THROWS>
+inline void
+maybe_throw()
+{
+  if (THROWS == 1)
+    throw Thrown();
+  if (THROWS == 2)
+    throw Thrown2();
+}
 
 inline void put(std::string& s, int v) { s += "i:" + std::to_string(v); }
 inline void put(std::string& s, long v) { s += "l:" + std::to_string(v); }
@@ -53,6 +86,17 @@ struct MStr
   explicit operator long() const { return moved ? -900000L : v; }
 };
 inline void put(std::string& s, const MStr& m) { s += m.moved ? std::string("m:<moved>") : "m:" + std::to_string(m.v); }
+
+// a string-like class with a CONVERTING constructor: an arithmetic argument handed to a parameter declared `Str`,
+// `const Str&` or `Str&&` is converted into a temporary Str.  The payload lives in a heap buffer (too long for the small
+// string optimisation), so a reference to a temporary that has already been destroyed is a heap-use-after-free.
+struct Str
+{
+  std::string s;
+  Str(long v) : s(std::string(40, '#') + std::to_string(v)) {}
+  explicit operator long() const { return std::stol(s.substr(40)); }
+};
+inline void put(std::string& s, const Str& x) { s += "s:" + x.s.substr(40); }
 
 // pool objects that reference-returning targets refer to: cell<T>(id) (node based map: stable addresses)
 template<typename T>
@@ -87,7 +131,7 @@ cell_name(const T* p)
   return "x"; // not a pool object: a copy / a temporary
 }
 
-template<int ID, bool THROWS, typename Ret, typename... A>
+template<int ID, int THROWS, typename Ret, typename... A>
 Ret
 leaf(A... a)
 {
@@ -98,8 +142,7 @@ leaf(A... a)
   int n = 0;
   ((s += (n++ ? "," : ""), put(s, a)), ...);
   s += ")";
-  if (THROWS)
-    throw Thrown();
+  maybe_throw<THROWS>();
   long sum = ID * 100L;
   long i = 1;
   ((sum += (i++) * static_cast<long>(a)), ...);
@@ -131,7 +174,7 @@ putp(std::string& s, const T& a)
   s += n == "x" ? v : "cref:" + v.substr(0, 2) + n + v.substr(1);
 }
 
-template<int ID, bool THROWS, typename Ret, typename... T>
+template<int ID, int THROWS, typename Ret, typename... T>
 Ret
 pleaf(const T&... a)
 {
@@ -142,8 +185,7 @@ pleaf(const T&... a)
   int n = 0;
   ((s += (n++ ? "," : ""), putp<T>(s, a)), ...);
   s += ")";
-  if (THROWS)
-    throw Thrown();
+  maybe_throw<THROWS>();
   long sum = ID * 100L;
   long i = 1;
   ((sum += (i++) * static_cast<long>(a)), ...);
@@ -155,21 +197,91 @@ pleaf(const T&... a)
     return static_cast<Ret>(sum);
 }
 
-template<int ID, bool THROWS, typename Ret, typename... T>
+template<int ID, int THROWS, typename Ret, typename... T>
 struct PRec
 {
   Ret operator()(const T&... a) const { return pleaf<ID, THROWS, Ret, T...>(a...); }
 };
 
+// a target with DECLARED parameter types P = `T`, `const T&` or `T&&` (mixed): a `const T&` parameter records which
+// object it is (like pleaf), the others the value they hold.  When the argument has another type the parameter is
+// bound to a converting temporary, which must live until the call returns.
+template<typename P>
+void
+putq(std::string& s, std::remove_reference_t<P>& a)
+{
+  using T = std::remove_cv_t<std::remove_reference_t<P>>;
+  if constexpr (std::is_lvalue_reference<P>::value && std::is_const<std::remove_reference_t<P>>::value)
+    putp<T>(s, a);
+  else
+    put(s, a);
+}
+
+template<int ID, int THROWS, typename Ret, typename... P>
+Ret
+qleaf(P... a)
+{
+  std::string& s = buf();
+  if (!s.empty())
+    s += ";";
+  s += std::to_string(ID) + "(";
+  int n = 0;
+  ((s += (n++ ? "," : ""), putq<P>(s, a)), ...);
+  s += ")";
+  maybe_throw<THROWS>();
+  long sum = ID * 100L;
+  long i = 1;
+  ((sum += (i++) * static_cast<long>(a)), ...);
+  if constexpr (std::is_void<Ret>::value)
+    return;
+  else if constexpr (std::is_same<Ret, double>::value)
+    return static_cast<double>(sum) + 0.5;
+  else
+    return static_cast<Ret>(sum);
+}
+
+template<int ID, int THROWS, typename Ret, typename... P>
+struct QRec
+{
+  Ret operator()(P... a) const { return qleaf<ID, THROWS, Ret, P...>(std::forward<P>(a)...); }
+};
+
 // the same target as a functor class (reached through adaptor_functor, not pointer_functor)
-template<int ID, bool THROWS, typename Ret, typename... A>
+template<int ID, int THROWS, typename Ret, typename... A>
 struct Rec
 {
   Ret operator()(A... a) const { return leaf<ID, THROWS, Ret, A...>(std::forward<A>(a)...); }
 };
 
+// a PARTIAL catcher for exception_catch(f, c), written as the documentation of exception_catch shows: it rethrows the
+// exception in flight and handles the types it knows (H1: Thrown, H2: Thrown2); any other exception leaves the catcher
+// again and must reach the next enclosing exception_catch or the caller.  When it handles the exception it records its
+// call and returns like the nullary target leaf<ID, 0, Ret>.
+template<int ID, typename Ret, bool H1, bool H2>
+struct PCatch
+{
+  Ret operator()() const
+  {
+    try
+    {
+      throw;
+    }
+    catch (const Thrown&)
+    {
+      if (!H1)
+        throw;
+    }
+    catch (const Thrown2&)
+    {
+      if (!H2)
+        throw;
+    }
+    return leaf<ID, 0, Ret>();
+  }
+};
+
 // a target accepting any number of int/long/double/MStr arguments BY VALUE (variadic template operator())
-template<int ID, bool THROWS, typename Ret>
+template<int ID, int THROWS, typename Ret>
 struct VRec
 {
   template<typename... A>
@@ -188,7 +300,11 @@ inline Trk& trk(int i)
   return t[i % 3];
 }
 
-inline void begin() { buf().clear(); }
+inline void begin()
+{
+  buf().clear();
+  std::set_terminate(&on_terminate);
+}
 
 // bound values given as NAMED VARIABLES (lvalues) that change after the adaptor has been built: bind() must have
 // captured their values, not references to them.  lv(x) returns a reference into a pool; poison() overwrites the pool.
@@ -235,6 +351,7 @@ void
 finish(int id, F&& f)
 {
   std::string res;
+  cur_case() = id;
   try
   {
     if constexpr (std::is_void<decltype(f())>::value)
@@ -261,6 +378,10 @@ finish(int id, F&& f)
   catch (const Thrown&)
   {
     res = "threw";
+  }
+  catch (const Thrown2&)
+  {
+    res = "threw2";
   }
   std::printf("%d log=%s res=%s\n", id, buf().c_str(), res.c_str());
   std::fflush(stdout);
@@ -308,6 +429,20 @@ struct Obj
       ++it->second.moves;
   }
   Obj& operator=(const Obj&) = delete;
+
+  // recording member functions: targets of the unbound sigc::mem_fun(&av::Obj::meth<...>) called as f(obj, args...);
+  // the record lists `this` as parameter 0 (a non-const method writes through it like a target taking `Obj&`)
+  template<int ID, bool RETV, typename... P>
+  std::conditional_t<RETV, int, void> meth(P... p);
+  template<int ID, bool RETV, typename... P>
+  std::conditional_t<RETV, int, void> cmeth(P... p) const;
+};
+
+// a class derived from Obj: an object argument whose static type is DObj reaches a member functor of Obj through a
+// derived-to-base reference binding; its (implicit) copy/move constructors run Obj's, so copies are counted
+struct DObj : Obj
+{
+  explicit DObj(int v_) : Obj(v_) {}
 };
 
 inline void track(const Obj* p, const char* label) { registry()[p].label = label; }
@@ -340,6 +475,19 @@ obody_all(std::remove_reference_t<P>&... p)
   s += rec;
   if constexpr (RETV)
     return static_cast<int>(1000 * (ID + 1) + sum);
+}
+
+template<int ID, bool RETV, typename... P>
+std::conditional_t<RETV, int, void>
+Obj::meth(P... p)
+{
+  return obody_all<ID, RETV, Obj&, P...>(*this, p...);
+}
+template<int ID, bool RETV, typename... P>
+std::conditional_t<RETV, int, void>
+Obj::cmeth(P... p) const
+{
+  return obody_all<ID, RETV, const Obj&, P...>(*this, p...);
 }
 
 // target as a free function (reached through pointer_functor)
@@ -383,10 +531,12 @@ struct Catcher
   }
 };
 
-inline void obegin()
+inline void obegin(int id = -1)
 {
   buf().clear();
   registry().clear();
+  cur_case() = id;
+  std::set_terminate(&on_terminate);
 }
 
 // print "<id> calls=... objs=... res=..."; `objs` lists the tracked objects in the given order
